@@ -1018,9 +1018,12 @@ def main(argv):
                     harness_errors.append('violation %s did not replay in a fresh interpreter (%s): %s' % (mv['class'], path, out[-300:]))
                     continue
             new.append((path, '%s [%s]: %s' % (mv['class'], signature(mv), mv['detail'][:300])))
+    # the same check, other run indices, under other interpreter configurations (python -O)
+    slices = [] if args.digests else core.run_config_slices(PROP, args.tier, max(8, cfg['runs'] // 8), new, known_hits, harness_errors)
     wall = time.monotonic() - t0
     runs = stats.get('runs', 0)
     coverage = {
+        'interpreter_configuration_slices': slices,
         'evaluations': int(stats.get('ops', 0)),
         'distinct_nontrivial': len(triples),
         'rule': 'cases = API calls executed inside seeded histories, each followed by a full re-snapshot of every pooled tree; '
